@@ -302,6 +302,14 @@ func genDual(r *rand.Rand) DBody {
 		if r.Intn(2) == 0 {
 			cb.Blocks = append(cb.Blocks, DBlock{Type: "sub", Body: DBody{Attrs: []DAttr{{"x", DExpr{Kind: "num", Str: "1"}}}}})
 		}
+		if r.Intn(2) == 0 {
+			bb := DBody{Attrs: []DAttr{{"path", DExpr{Kind: "str", Str: "p"}}},
+				Blocks: []DBlock{{Type: "bopts", Body: DBody{Attrs: []DAttr{{"mode", DExpr{Kind: "str", Str: "m"}}}}}}}
+			if r.Intn(3) == 0 {
+				bb.Attrs = append([]DAttr{{"kind", DExpr{Kind: "str", Str: "local"}}}, bb.Attrs...)
+			}
+			cb.Blocks = append(cb.Blocks, DBlock{Type: "backend", Body: bb})
+		}
 		b.Blocks = append(b.Blocks, DBlock{Type: "cfg", Labels: []string{kind}, Body: cb})
 	}
 	return b
